@@ -78,7 +78,7 @@ theorem encodings_give_leaves (t : Ty) (v : Val) (hs : t.selfDesc = true) (hw : 
     refine ⟨u, ?_, hl⟩
     subst hb
     unfold decodeSchemaless
-    have := parseOne_ser Generated.derDecByTag.parse x [] hxw (Or.inr (hxd rfl))
+    have := parseOne_ser Generated.derDecByTag.parse x [] hxw (Or.inr (lenForm_allDef hxd rfl))
     rw [List.append_nil] at this
     rw [this]; simp [hd, Except.map]
   · intro b hreg he
